@@ -337,7 +337,7 @@ class Engine:
     def verify_function(self, qualname, max_paths=4000, on_path=None, jobify=None):
         """-> dict(obligations=[...], paths=n, unsupported=[...], ended=...)"""
         finfo = self.src.funcs.get(qualname)
-        if finfo is None and "::loop#" in qualname:
+        if finfo is None and ("::loop#" in qualname or "::whole-loop#" in qualname):
             try:
                 finfo = self.src.fragment(qualname, list((self.contract_of(qualname) or {}).get("params", {"self": 1}).keys()))
             except Exception as ex:
